@@ -7,7 +7,7 @@ from core import Part, require, Violation
 from gen_graph import (tree_list, build_tree, tree_height, automaton, build_automaton, chain_list, build_chains, chain_tuples,
                        layered_graph, build_graph, graph_desc_poly, OID_ID, SYMBOLS, physical_charges, random_opmap,
                        tree_with_identity_id, opmap_with_identity_id)
-from oracle_sym import frac, graph_poly, tree_poly, automaton_poly, poly_sum, poly_matrix, chains_poly, absconv
+from oracle_sym import frac, graph_poly, tree_poly, automaton_poly, poly_sum, poly_matrix, chains_poly, absconv, require_consistent
 from props.c16 import same_poly, float_conv
 
 ID = 'C17'
@@ -47,7 +47,7 @@ def check_trees(case, rec):
     trees = [build_tree(t) for t in case['trees']]
     want = poly_sum(*[tree_poly(t, L, OID_ID, conv) for t in case['trees']])
     graph = ptn.OpGraph.from_optrees(trees, L, OID_ID)
-    require(graph.is_consistent(), 'graph fails its own consistency check')
+    require_consistent(graph, 'unfolded graph')
     require(graph.length == L, 'graph has the wrong length', got=graph.length, want=L)
     magsum = float(sum(poly_sum(*[tree_poly(t, L, OID_ID, absconv) for t in case['trees']]).values()))
     same_poly(graph_poly(graph, conv), want, exact, 'from_optrees', scale=magsum)
@@ -107,7 +107,7 @@ def check_automaton(case, rec):
     aut = build_automaton(case)
     require(aut.is_consistent(), 'generated automaton is inconsistent (generator post-condition)')
     graph = ptn.OpGraph.from_automaton(aut, L)
-    require(graph.is_consistent(), 'graph fails its own consistency check')
+    require_consistent(graph, 'unfolded graph')
     require(graph.length == L, 'graph has the wrong length', got=graph.length, want=L)
     magsum = float(sum(automaton_poly(case, L, absconv).values()))
     same_poly(graph_poly(graph, conv), want, exact, 'from_automaton', scale=magsum)
